@@ -141,8 +141,8 @@ type ret08 struct {
 	snap     string
 }
 
-func doc(i int) []byte       { return append([]byte(nil), c08Docs[i%len(c08Docs)]...) }
-func senDoc(i int) []byte    { return append([]byte(nil), c08SenDocs[i%len(c08SenDocs)]...) }
+func doc(i int) []byte        { return append([]byte(nil), c08Docs[i%len(c08Docs)]...) }
+func senDoc(i int) []byte     { return append([]byte(nil), c08SenDocs[i%len(c08SenDocs)]...) }
 func opts(i int) *ojg.Options { return c08Opts[i%len(c08Opts)] }
 
 func privateData(i int) any {
